@@ -359,10 +359,12 @@ package asp
 //@   opt inline=off
 //@   opt precall=off
 //@   callsite panic frozen_lists_can_be_interpolated [C18]: hasPrefix(unbox(arg0, string), "Argument to string interpolation") ==> !listlike(operand)
+// (`in` compares items with ==: comparing two interface values that both hold a list or a dict panics in Go, so
+// items are compared with pyEqual — opt nopanic=ifacecompare makes every interface comparison an obligation.)
 //@ func (pyList).Operator
 //@   property C16 C17
 //@   modifies heap
-//@   opt nopanic=off
+//@   opt nopanic=ifacecompare
 //@   opt panics=allowed
 //@   opt appendalias=on
 //@   callsite asList the_right_operand_of_a_comparison [C18]: arg_obj == operand
